@@ -12,7 +12,8 @@ pub fn run(ctx: &Ctx) -> i32 {
     let mut rep = Report::new(
         "Differential: every generated input (the C01/C02 mixture for both formats: midpoints, closest approaches, seams, \
          range ends, long tails, shaped random) is parsed in all 8 separately compiled feature configurations and the 8 \
-         results are compared bit for bit; a panic in one configuration only is a difference too. No reference value is \
+         results are compared bit for bit, plus the default and the compact configuration built a second time \
+         without the harness's `verif` hook feature (what a user compiles); a panic in one configuration only is a difference too. No reference value is \
          used. Non-trivial: the moderate stage declined (big-integer path) in the default or the compact configuration, \
          or the fast path ran with a non-zero exponent (table vs powf/powd vs bundled libm), or digits were truncated, \
          or the result is at a range end; distinct by fingerprint of (format, integer, fraction, exponent).",
@@ -37,6 +38,25 @@ pub fn run(ctx: &Ctx) -> i32 {
                 ));
             }
         }
+        // the default and the compact configuration once more, built without the `verif` hook feature (exactly
+        // what a user of the crate compiles): must agree with their hooked twins
+        for which in 0..2usize {
+            let got = crate::runner::catch(|| match fmt {
+                Fmt::F32 => mlc::plain::parse32(which, &c.int, &c.frac, c.exp),
+                Fmt::F64 => mlc::plain::parse64(which, &c.int, &c.frac, c.exp),
+            });
+            if got != Ok(res[which]) {
+                return Err(Failure::violation(
+                    format!(
+                        "{} disagrees with the hooked build on {}.{}e{} as {}: {:?} vs {}",
+                        mlc::plain::NAMES[which], gen::abbreviate(&c.int), gen::abbreviate(&c.frac), c.exp, fmt.name(), got.as_ref().map(|b| fmt.hex(*b)), fmt.hex(res[which])
+                    ),
+                    format!("differ:plain-{}:{}", which, fmt.name()),
+                    raw_detail(fmt, "*", &c.int, &c.frac, c.exp, json!({"plain_build": mlc::plain::NAMES[which], "plain_result": format!("{:?}", got.map(|b| fmt.hex(b))), "hooked_result": fmt.hex(res[which])})),
+                ));
+            }
+        }
+        stats.count("plain-build-comparisons");
         let nt = account(fmt, &c, res[0], stats, false);
         let p = CFGS[0].path(fmt, &c.int, &c.frac, c.exp);
         if p.fast && p.exponent != 0 {
@@ -75,7 +95,16 @@ pub fn replay(v: &serde_json::Value) -> Result<bool, String> {
             for (c, b) in CFGS.iter().zip(res.iter()) {
                 println!("replay: config {} -> {}", c.name, fmt.hex(*b));
             }
-            Ok(res.iter().any(|b| *b != res[0]))
+            let mut bad = res.iter().any(|b| *b != res[0]);
+            for which in 0..2usize {
+                let got = match fmt {
+                    Fmt::F32 => mlc::plain::parse32(which, &int, &frac, exp),
+                    Fmt::F64 => mlc::plain::parse64(which, &int, &frac, exp),
+                };
+                println!("replay: {} -> {}", mlc::plain::NAMES[which], fmt.hex(got));
+                bad |= got != res[which];
+            }
+            Ok(bad)
         }
     }
 }
